@@ -19,7 +19,7 @@ MANIFEST = dict(
           "the theorem about crash points assumes no growth-forced checkpoint inside an operation (open finding F26); checkpoint thread idle"),
     technique="Lean 4 proof over executable model + crash enumeration with link-time interposers + differential correspondence")
 MODULE = "IwModel.Props.C04"
-THEOREMS = ["IwModel.C04.replay_idempotent", "IwModel.C04.replay_idempotent_twice"]
+THEOREMS = ["IwModel.C04.replay_idempotent", "IwModel.C04.replay_idempotent_twice", "IwModel.C04.checkpoint_kill_recovers"]
 WRAPS = ("write", "pwrite64", "ftruncate64", "fsync", "fdatasync", "msync")
 
 
